@@ -537,7 +537,7 @@ func sortedBeforeUse(p *Prog, l *mapLoop, obj types.Object, consumerSorts func(f
 		return false, "no function body"
 	}
 	g := p.CFGOf(body, info)
-	var sorts []ast.Node
+	var sorts, aliasDefs []ast.Node
 	type use struct {
 		n    ast.Node
 		desc string
@@ -549,7 +549,39 @@ func sortedBeforeUse(p *Prog, l *mapLoop, obj types.Object, consumerSorts func(f
 		}
 		return true
 	})
+	// a sort of a named sub-slice of the slice (`tail := s[k:]; sort.Strings(tail)`) sorts the slice in place
+	inspectNoFuncLit(body, func(n ast.Node) bool {
+		as, ok := n.(*ast.AssignStmt)
+		if !ok || len(as.Lhs) != 1 || len(as.Rhs) != 1 {
+			return true
+		}
+		se, ok := ast.Unparen(as.Rhs[0]).(*ast.SliceExpr)
+		if !ok || identObj(info, se.X) != obj {
+			return true
+		}
+		alias := identObj(info, as.Lhs[0])
+		if alias == nil {
+			return true
+		}
+		sortedAlias := false
+		inspectNoFuncLit(body, func(m ast.Node) bool {
+			if call, ok := m.(*ast.CallExpr); ok && sortingCallOn(info, call, alias) {
+				sorts = append(sorts, call)
+				sortedAlias = true
+			}
+			return true
+		})
+		if sortedAlias {
+			aliasDefs = append(aliasDefs, as)
+		}
+		return true
+	})
 	inSort := func(n ast.Node) bool {
+		for _, d := range aliasDefs {
+			if containsNode(d, n) {
+				return true
+			}
+		}
 		for _, s := range sorts {
 			if containsNode(s, n) {
 				return true
